@@ -6,6 +6,7 @@ from the dictionary and the schema slot of every value (lexical class MapServer 
 from __future__ import annotations
 
 import copy
+from collections import OrderedDict
 import io
 import os
 import re
@@ -307,6 +308,45 @@ def search(acc: Acc, tier, shard, nshards):
 
 # ------------------------------------------------------------------ edit histories
 
+def freeze(x, seen=None):
+    """JSON form of a dictionary under test that keeps what a history can build and JSON cannot say: the class and
+    default factory of each dict, tuples, and one object standing in two places (machine failures replay from it)."""
+    if seen is None:
+        seen = {}
+    if isinstance(x, dict):
+        if id(x) in seen:
+            return {"$ref": seen[id(x)]}
+        seen[id(x)] = n = len(seen)
+        return {"$dict": n, "cls": type(x).__name__, "factory": getattr(x, "default_factory", None) is not None,
+                "items": [[k, freeze(v, seen)] for k, v in dict.items(x)]}
+    if isinstance(x, tuple):
+        return {"$tuple": [freeze(v, seen) for v in x]}
+    if isinstance(x, list):
+        return {"$list": [freeze(v, seen) for v in x]}
+    return x
+
+
+def thaw(x, made=None):
+    from mappyfile.ordereddict import CaseInsensitiveOrderedDict, DefaultOrderedDict
+
+    if made is None:
+        made = {}
+    if isinstance(x, dict):
+        if "$ref" in x:
+            return made[x["$ref"]]
+        if "$tuple" in x:
+            return tuple(thaw(v, made) for v in x["$tuple"])
+        if "$list" in x:
+            return [thaw(v, made) for v in x["$list"]]
+        cls = {"CaseInsensitiveOrderedDict": CaseInsensitiveOrderedDict, "DefaultOrderedDict": DefaultOrderedDict}.get(x["cls"])
+        d = (cls(cls if x["factory"] else None) if cls else OrderedDict())
+        made[x["$dict"]] = d
+        for k, v in x["items"]:
+            OrderedDict.__setitem__(d, k, thaw(v, made))
+        return d
+    return x
+
+
 def objects_of(d, path=()):
     """[(path, obj)] for every object dict (with __type__ of an object type)"""
     out = []
@@ -362,8 +402,12 @@ def machine(acc: Acc, tier, shard, nshards):
             self.edits = 0
             self._check()
 
-        def _fail(self, bucket, msg):
-            state["fail"] = (bucket, msg, list(self.hist))
+        def _fail(self, bucket, msg, opts=None):
+            try:
+                frozen = freeze(self.d)
+            except Exception:   # pragma: no cover - a dictionary the history made unserialisable
+                frozen = None
+            state["fail"] = (bucket, msg, list(self.hist), frozen, opts)
             raise AssertionError(msg)
 
         def _check(self, opts=None):
@@ -372,7 +416,7 @@ def machine(acc: Acc, tier, shard, nshards):
             o.update(opts or {})
             ds = check_print(self.d, o, {})
             if ds:
-                self._fail(ds[0].bucket, ds[0].message)
+                self._fail(ds[0].bucket, ds[0].message, o)
 
         def _pick(self, ch):
             return ch.choice(objects_of(self.d))
@@ -438,7 +482,7 @@ def machine(acc: Acc, tier, shard, nshards):
             if not edges:
                 return
             k, c, _ = ch.choice(edges)
-            op = ch.choice(["append", "insert", "remove", "swap", "append_created", "append_plain"])
+            op = ch.choice(["append", "insert", "remove", "swap", "append_created", "append_plain", "share"])
             if k not in o and not isinstance(o, C):
                 o[k] = []   # create() objects have no default factory
             lst = o[k]   # auto-creates [] for object-list keys on Mapfile dicts
@@ -449,6 +493,22 @@ def machine(acc: Acc, tier, shard, nshards):
                     lst.append(child)
                 else:
                     lst.insert(ch.int(0, len(lst)), child)
+            elif op == "share":
+                # the same Python object placed a second time (one parsed STYLE given to two CLASSes): the dictionary
+                # holds it twice, so the text must say it twice
+                def holds(x, target):
+                    if x is target:
+                        return True
+                    if isinstance(x, dict):
+                        return any(holds(v, target) for kk, v in x.items() if not str(kk).startswith("__"))
+                    if isinstance(x, (list, tuple)):
+                        return any(holds(v, target) for v in x)
+                    return False
+
+                cands = [x for _, x in objects_of(self.d) if x.get("__type__") == c and not holds(x, o)]
+                if not cands:
+                    return
+                lst.append(ch.choice(cands))
             elif op == "append_created":
                 if c == "label":
                     return  # create('label') carries BACKGROUNDSHADOWSIZE false (known finding KF12)
@@ -557,11 +617,12 @@ def machine(acc: Acc, tier, shard, nshards):
                 raise
         if state["fail"] is None:
             break
-        b, msg, hist = state["fail"]
+        b, msg, hist, frozen, fopts = state["fail"]
         if b in masked:
             break
         masked.add(b)
-        acc.violations.append({"bucket": "history:" + b, "message": f"after {[h[0] for h in hist]}: {msg}", "case": {"history": hist},
+        acc.violations.append({"bucket": "history:" + b, "message": f"after {[h[0] for h in hist]}: {msg}",
+                               "case": {"history": hist, "frozen": frozen, "options": fopts},
                                "search": "machine", "shard": shard, "round": round_, "seed": env.verif_seed(), "tier": tier})
         break
     if len(acc.samples) < 3:
@@ -570,6 +631,9 @@ def machine(acc: Acc, tier, shard, nshards):
 
 def replay(case):
     W = env.Workers.get()
+    if case.get("frozen") is not None and case.get("options"):
+        # a machine failure: the dictionary the history had reached, rebuilt with its classes and shared objects
+        return check_print(thaw(case["frozen"]), case["options"], case)
     if "file" in case:
         from .. import corpus
 
